@@ -68,6 +68,31 @@ pub trait Space: Sync {
     }
 }
 
+/// The same cases in DESCENDING index order (id suffix "~rev"): library code with process-wide state (caches, memo
+/// tables, statics) sees every case after a different predecessor than in the ascending pass.
+pub struct Reversed(pub Box<dyn Space>);
+impl Space for Reversed {
+    fn len(&self) -> u64 {
+        self.0.len()
+    }
+    fn run(&self, i: u64, sink: &mut Sink) {
+        self.0.run(self.0.len() - 1 - i, sink)
+    }
+    fn describe(&self, i: u64) -> Value {
+        let mut v = self.0.describe(self.0.len() - 1 - i);
+        if let Some(m) = v.as_object_mut() {
+            m.insert("order".into(), Value::String("descending pass".into()));
+        }
+        v
+    }
+    fn tags(&self, i: u64) -> Vec<String> {
+        self.0.tags(self.0.len() - 1 - i)
+    }
+}
+pub fn reversed_of(id: &str, inner: impl Fn(&str) -> Option<Box<dyn Space>>) -> Option<Option<Box<dyn Space>>> {
+    id.strip_suffix("~rev").map(|base| inner(base).map(|s| Box::new(Reversed(s)) as Box<dyn Space>))
+}
+
 pub struct PoolCfg {
     pub workers: usize,
     pub chunk: u64,
